@@ -16,6 +16,9 @@ CLAIMS = {
  "C04": ("Theorems over the small-step caller/worker/file-system model, for every interleaving, batching, chunk rotation and every sequence of injected write/fdatasync/unlink failures incl. worker death: a callback that reported success implies every journal byte below the journal end at its flush call, in every file still present, is inside that file's synced prefix; synced <= written; callbacks at most once and in request order; exactly once without failures when the worker has caught up. The model is tied to the crate by K-trace: gated schedules at system-call granularity with injected EIO, the recorded global trace must be a run of the model; the same predicates are evaluated directly on the recorded traces.",
          COMMON_NOTE + "Partial w.r.t. the OS: a successful fdatasync is assumed to make all previously written bytes of that file durable; real schedules are the gated subset, the model's are all.",
          "Coq invariant proof on a small-step system + trace validation with fault injection", "DESIGN 5/C04"),
+ "C05": ("The property is false of the code in one class (known finding F3, machine-checked witness `C05_refuted_gap`: a crash between the creation of a new chunk file and the worker's write of the old chunk's tail leaves a gap and open refuses). Positive theorem outside the class: for EVERY reachable state of the small-step caller/worker/file-system model (any interleaving, batching, injected failures, worker death), EVERY crash image of it (each file cut anywhere between its synced and written length, or zero-filled from a record boundary) in which no older file stops short of the next file's name, and every configuration with tail truncation enabled: open succeeds and the recovered store never panics whatever is done with it. Ties: K-trace with directory snapshots while the worker is held; for every snapshot the process-crash image, the synced-bytes image and random cuts/zero tails are opened by the real crate and by the model, then written to, flushed and reopened; failures inside the known class are reported as KNOWN-FINDING.",
+         COMMON_NOTE + "Partial w.r.t. the OS: directory operations (create, unlink, ftruncate) are assumed durable and ordered, fdatasync durable; torn writes are cuts at any byte, zero-filled extents start at record boundaries. Crashes during recovery itself are covered by the checks only through the recovered directory being opened again.",
+         "Coq proof outside a machine-checked refuted class + trace validation + crash-image differential recovery", "DESIGN 5/C05"),
  "C06": ("Unconditional theorems: a refused record/write leaves the entire caller-side state identical and produces no effect (hence nothing later can differ); a refused multi-entry append equals appending the accepted prefix; the store refuses exactly what the reference log refuses. Differential histories with 20% refused operations, stat and resident cache set compared before/after every refused call, then flush + restart.",
          COMMON_NOTE, "Coq proof (state equality) + differential histories with refused writes", "DESIGN 5/C06"),
  "C07": ("The property is false of the code in one class (known finding F2, carried as a machine-checked witness `C07_refuted_live`: a Raft-legal history under a zero-item cache after which a live entry is unreadable). Positive theorem outside the class: for ANY cache limits (0 included), any chunk limits, drains and worker progress at any call boundary, if every appended log id is above every eviction boundary in force or still to be installed, the run never panics and every range read and the snapshot iteration return exactly the reference log's entries; a second witness shows the class cannot be narrowed to the boundary in force. Ties: lock-step histories under tiny caches with reads, snapshot iteration, drains and restarts; gated traces with reads while requests are buffered / queued / written / synced / evicted; every read item compared with the reference log; failures inside the known class are reported as KNOWN-FINDING.",
@@ -42,7 +45,7 @@ CLAIMS = {
          COMMON_NOTE + "Partial: thread scheduling is replaced by gated schedules; relies on the repair 38c8669 (drop joins the worker, lock released last).",
          "Coq proof on a small-step system + gated drop/reopen traces", "DESIGN 5/C14"),
  "C15": ("Theorems: in every state reachable by any operations with any arguments (refused writes, truncations, purges, drains, worker progress) the size counter equals the total payload size of the resident entries and keys are distinct; after an accepted append an over-limit cache holds only entries above the boundary in force; after a drain nothing at or below the boundary is resident. Differential histories under tiny cache limits with stat() and the resident set (verif-hooks accessor) after every operation.",
-         COMMON_NOTE + "Partial: restarts are covered by a replay lemma whose premise (State records in the journal never lower `last` below a resident key) is not yet discharged from the journal invariant; update_state is excluded (it can install an arbitrary state).",
+         COMMON_NOTE + "Restarts anywhere in the history are covered (any configuration and cache limits at every restart, unflushed bytes lost); update_state is excluded (it can install an arbitrary state); arguments well-formed (u64/u32 ranges).",
          "Coq invariant proof + differential histories with resident-set oracle", "DESIGN 5/C15"),
  "C16": ("Theorem: no run from an empty directory — any operations, any argument values, any configurations, restarts included — produces a panic as the result of a call; one-step versions for writes and inverted reads; the u64::MAX guard. Differential histories with boundary arguments on debug (overflow checks on) and release builds under catch_unwind.",
          COMMON_NOTE + "The model carries the partial operations of the code (index underflow, BTreeMap range, offsets[l-2]); arithmetic on journal offsets is unbounded N (journals below 2^64 bytes assumed).",
